@@ -72,6 +72,9 @@ def generate(rng, i, tier):
             if rng.random() < 0.5:
                 items.insert(rng.randint(0, len(items)), ["nbad", "d9/gone.csv"])
             opsl.append({"op": "bulk", "items": items})
+        elif k == "restart" and rng.random() < 0.4:
+            # the caller goes on with the OTHER of two long-lived instances (whatever it remembers is as old as its last use)
+            opsl.append({"op": "swap"})
         else:
             opsl.append({"op": "restart"})
     return {"seed": rng.getrandbits(32), "listdir_salt": rng.choice([None, rng.getrandbits(16), rng.getrandbits(16)]), "ops": opsl, "clock": rng.choice(["frozen", "frozen", "tick", "jumps"]), "log": rng.choice(["error"] * 5 + ["debug", "info"])}
@@ -282,6 +285,7 @@ def execute(sc):
     seams.reset(sc["seed"], listdir_salt=sc.get("listdir_salt"))
     with W.World(log_level=sc.get("log", "error")) as w:
         cs = ops.new_csvpaths()
+        cs_alt = None
         age = 0
         model = {}  # name -> [(sha, basename, bytes)]
         src_now = {}  # src -> bytes
@@ -434,6 +438,9 @@ def execute(sc):
                     import shutil
 
                     shutil.rmtree(os.path.join("inputs", "named_files", op["name"]), ignore_errors=True)
+            elif k == "swap":
+                cs, cs_alt = (cs_alt if cs_alt is not None else ops.new_csvpaths()), cs
+                out.fault("instance_swap")
             elif k == "restart":
                 cs = ops.new_csvpaths()
                 age = -1
